@@ -165,6 +165,9 @@ impl LayerData {
     }
 }
 
+// Maximum number of layers: layer indices must fit the 16 bit layer index of a cel.
+const MAX_LAYERS: usize = u16::MAX as usize + 1;
+
 #[derive(Debug)]
 pub(crate) struct LayersData {
     // Sorted back to front (or bottom to top in the GUI, but groups occur
@@ -190,7 +193,14 @@ impl LayersData {
     }
 
     pub(crate) fn from_vec(layers: Vec<LayerData>) -> Result<Self> {
-        // TODO: Validate some properties
+        // Cels address their layer with a 16 bit index, and so do cel ids.
+        if layers.len() > MAX_LAYERS {
+            return Err(AsepriteParseError::InvalidInput(format!(
+                "Too many layers: {} (at most {} are supported)",
+                layers.len(),
+                MAX_LAYERS
+            )));
+        }
         let parents = compute_parents(&layers)?;
         Ok(LayersData { layers, parents })
     }
